@@ -1055,6 +1055,9 @@ class Interp:
                     return SArr2.fresh(nr, nc, lambda i, j: f(I(rlo) + I(i), I(clo) + I(j)), a.kind, a.enc)
                 return SArr2(a.buf, nr, nc, I(a.start) + I(rlo) * I(a.rstride) + I(clo) * I(a.cstride),
                              a.rstride, a.cstride, a.kind, a.enc)
+            if isinstance(r, slice) and r != full and r.step in (None, 1) and isinstance(cc, (int, z3.ArithRef)):
+                sub = self.getitem_arr2(a, (r, full), lineno)
+                return self.getitem_arr2(sub, (full, cc), lineno)
             if isinstance(r, slice) and r == full and isinstance(cc, (int, z3.ArithRef)):
                 j = M.wrapneg(cc, a.cols)
                 c.check("%s:index.inbounds@L%s" % (c.fname, lineno), in_range(j, a.cols), "safety", lineno)
